@@ -70,6 +70,7 @@ type fnInfo struct {
 	calls   map[*ssa.Function]bool
 	gdeps   map[*types.Package]bool
 	ifaces  map[string]bool
+	retConcrete map[int]types.Type // interface-typed results that always box one concrete type
 	fuel    bool // takes a fuel argument (has a loop or recursion, or calls something that does)
 	selfRec bool
 }
@@ -266,6 +267,7 @@ type ptrv struct {
 }
 
 type sym struct {
+	boxed bool // a concrete value converted to an interface: may only be returned
 	iface bool
 	expr  string
 	ptr   *ptrv
@@ -292,8 +294,9 @@ type loopInfo struct {
 }
 
 type state struct {
-	env   map[ssa.Value]sym
-	cells map[int]*cell
+	env    map[ssa.Value]sym
+	cells  map[int]*cell
+	frozen map[loopLoc]bool // arrays a live slice aliases
 }
 
 func (s *state) clone() *state {
@@ -303,6 +306,12 @@ func (s *state) clone() *state {
 	}
 	for k, v := range s.cells {
 		c.cells[k] = &cell{id: v.id, param: v.param, root: v.root.clone()}
+	}
+	if s.frozen != nil {
+		c.frozen = map[loopLoc]bool{}
+		for k := range s.frozen {
+			c.frozen[k] = true
+		}
 	}
 	return c
 }
@@ -321,6 +330,7 @@ type ctx struct {
 	loops    map[*ssa.BasicBlock]*loopInfo
 	lstack   []*loopInfo
 	loopSeq  int
+	retConcrete map[int]types.Type
 	fuelVar  string // the fuel variable in scope ("" when the function has not needed fuel yet)
 	usesFuel bool
 	pcell    map[int]int // param index -> cell id
@@ -930,8 +940,17 @@ func (c *ctx) instr(s *state, in ssa.Instruction, d int) {
 		if pp.cell == nil {
 			fail("store into consumed memory")
 		}
+		if s.frozen != nil {
+			key := ""
+			if len(pp.path) > 0 {
+				key = pp.path[0].name
+			}
+			if s.frozen[loopLoc{pp.cell.id, key}] || s.frozen[loopLoc{pp.cell.id, ""}] {
+				fail("store into an array that a live slice aliases")
+			}
+		}
 		v := c.val(s, x.Val)
-		if v.ptr != nil || v.fn != nil || v.iface {
+		if v.ptr != nil || v.fn != nil || v.iface || v.boxed {
 			fail("storing a pointer, function or interface value")
 		}
 		c.store(pp, v.expr)
@@ -959,11 +978,36 @@ func (c *ctx) instr(s *state, in ssa.Instruction, d int) {
 		switch xt := x.X.Type().Underlying().(type) {
 		case *types.Pointer: // array pointer
 			p := c.val(s, x.X)
-			if p.ptr == nil || x.Low != nil || x.High != nil {
-				fail("partial slice of an array")
+			if p.ptr == nil {
+				fail("slice of an unknown array")
 			}
-			if p.ptr.cell.param != -1 {
-				fail("slice of an array that is not local")
+			if p.ptr.cell.param != -1 || x.Low != nil || x.High != nil {
+				// an array that outlives the call (a receiver field) or a partial slice: the slice is the list of the
+				// array's CURRENT elements; it aliases the array, so the array is frozen from here on (a later store
+				// into it makes the function unsupported)
+				pp := &ptrv{cell: s.cells[p.ptr.cell.id], path: p.ptr.path}
+				if pp.cell == nil {
+					fail("slice of consumed memory")
+				}
+				whole := c.load(pp)
+				arr := xt.Elem().Underlying().(*types.Array)
+				lo, hi := "0", fmt.Sprint(arr.Len())
+				if x.Low != nil {
+					lo, _ = c.indexNat(s, x.Low)
+				}
+				if x.High != nil {
+					hi, _ = c.indexNat(s, x.High)
+				}
+				key := ""
+				if len(pp.path) > 0 {
+					key = pp.path[0].name
+				}
+				if s.frozen == nil {
+					s.frozen = map[loopLoc]bool{}
+				}
+				s.frozen[loopLoc{pp.cell.id, key}] = true
+				bind(x, fmt.Sprintf("(Go.slice (%s).toList %s %s)", whole, lo, hi))
+				return
 			}
 			pp := &ptrv{cell: s.cells[p.ptr.cell.id], path: p.ptr.path}
 			arr := xt.Elem().Underlying().(*types.Array)
@@ -990,7 +1034,15 @@ func (c *ctx) instr(s *state, in ssa.Instruction, d int) {
 		}
 	case *ssa.Call:
 		c.call(s, x, d)
-	case *ssa.MakeInterface, *ssa.TypeAssert, *ssa.ChangeInterface, *ssa.MakeClosure, *ssa.MakeMap, *ssa.MakeChan,
+	case *ssa.MakeInterface:
+		// a concrete first-order value converted to an interface: supported only when it goes straight to `return`
+		// (the function then returns the concrete value; every return must box the same concrete type)
+		v := c.val(s, x.X)
+		if v.ptr != nil || v.fn != nil || v.comps != nil || v.iface || !firstOrder(x.X.Type()) {
+			fail("*ssa.MakeInterface")
+		}
+		s.env[x] = sym{expr: v.expr, typ: x.X.Type(), boxed: true}
+	case *ssa.TypeAssert, *ssa.ChangeInterface, *ssa.MakeClosure, *ssa.MakeMap, *ssa.MakeChan,
 		*ssa.MakeSlice, *ssa.Lookup, *ssa.MapUpdate, *ssa.Range, *ssa.Next, *ssa.Select, *ssa.Send, *ssa.Go, *ssa.Defer,
 		*ssa.RunDefers, *ssa.Panic, *ssa.SliceToArrayPointer, *ssa.MultiConvert:
 		fail("%T", in)
@@ -1065,6 +1117,9 @@ func (c *ctx) call(s *state, x *ssa.Call, d int) {
 		if ci.err != "" {
 			fail("calls %s (%s)", callee.String(), ci.err)
 		}
+		if len(ci.retConcrete) > 0 {
+			fail("calls %s, which returns an interface value", callee.String())
+		}
 		c.info.calls[callee] = true
 	}
 	// arguments
@@ -1099,7 +1154,7 @@ func (c *ctx) call(s *state, x *ssa.Call, d int) {
 			}
 			continue
 		}
-		if av.ptr != nil || av.fn != nil || av.comps != nil {
+		if av.ptr != nil || av.fn != nil || av.comps != nil || av.boxed || av.iface {
 			fail("passing a non-first-order value")
 		}
 		args = append(args, av.expr)
@@ -1178,7 +1233,7 @@ func (c *ctx) invoke(s *state, x *ssa.Call, d int) {
 	var args []string
 	for _, a := range com.Args {
 		av := c.val(s, a)
-		if av.ptr != nil || av.fn != nil || av.comps != nil || av.iface {
+		if av.ptr != nil || av.fn != nil || av.comps != nil || av.iface || av.boxed {
 			fail("passing a non-first-order value to an interface method")
 		}
 		args = append(args, av.expr)
@@ -1321,6 +1376,14 @@ func (c *ctx) retTypeNow() string {
 	var rs []string
 	res := c.fn.Signature.Results()
 	for i := 0; i < res.Len(); i++ {
+		if ct, ok := c.info.retConcrete[i]; ok {
+			rs = append(rs, c.t.leanType(ct))
+			continue
+		}
+		if _, isI := res.At(i).Type().Underlying().(*types.Interface); isI {
+			rs = append(rs, "Unit") // not yet known (first pass)
+			continue
+		}
 		rs = append(rs, c.t.leanType(res.At(i).Type()))
 	}
 	for _, io := range c.fixedOut {
@@ -1517,10 +1580,22 @@ func (c *ctx) blockFrom(s *state, b *ssa.BasicBlock, from *ssa.BasicBlock, onPat
 				fail("too many paths")
 			}
 			var parts []string
-			for _, r := range x.Results {
+			for i, r := range x.Results {
 				v := c.val(s, r)
-				if v.ptr != nil || v.fn != nil || v.comps != nil {
+				if v.ptr != nil || v.fn != nil || v.comps != nil || v.iface {
 					fail("returning a non-first-order value")
+				}
+				if _, isI := r.Type().Underlying().(*types.Interface); isI {
+					if !v.boxed {
+						fail("returning an interface value")
+					}
+					if c.retConcrete == nil {
+						c.retConcrete = map[int]types.Type{}
+					}
+					if old, ok := c.retConcrete[i]; ok && !types.Identical(old, v.typ) {
+						fail("returns box different concrete types")
+					}
+					c.retConcrete[i] = v.typ
 				}
 				parts = append(parts, v.expr)
 			}
@@ -1805,6 +1880,12 @@ func (t *translator) translate(fn *ssa.Function) (fi *fnInfo) {
 			sig += io.name + ","
 		}
 		sig += "|" + strings.Join(sortedKeys(fi.ifaces), ",")
+		fi.retConcrete = c.retConcrete
+		for i := 0; i < fn.Signature.Results().Len(); i++ {
+			if ct, ok := c.retConcrete[i]; ok {
+				sig += "|" + ct.String()
+			}
+		}
 		fi.inputs = sortedIO(c.inputs)
 		fi.outputs = newOut
 		fi.fuel = c.usesFuel
@@ -1843,6 +1924,10 @@ func (t *translator) translate(fn *ssa.Function) (fi *fnInfo) {
 	var rs []string
 	res := fn.Signature.Results()
 	for i := 0; i < res.Len(); i++ {
+		if ct, ok := fi.retConcrete[i]; ok {
+			rs = append(rs, t.leanType(ct))
+			continue
+		}
 		rs = append(rs, t.leanType(res.At(i).Type()))
 	}
 	for _, io := range fi.outputs {
